@@ -589,7 +589,7 @@ class AgreementSim(_simnet.Sim):
                 c0cfg.cipher_suites = [T.CipherSuite(x) for x in cfg["t_suites"]]
             c0 = QuicConnection(configuration=c0cfg, session_ticket_handler=got.append)
             c0.connect(E.SERVER_ADDR, now=0.0)
-            s0 = QuicConnection(configuration=self._copy_cfg(self.scfg), original_destination_connection_id=c0.original_destination_connection_id, session_ticket_fetcher=store.pop, session_ticket_handler=lambda t: store.__setitem__(t.ticket, t))
+            s0 = QuicConnection(configuration=self._copy_cfg(self.scfg), original_destination_connection_id=c0.original_destination_connection_id, session_ticket_fetcher=lambda k: store.pop(k, None), session_ticket_handler=lambda t: store.__setitem__(t.ticket, t))
             now = 0.0
             for _ in range(8):
                 now += 0.001
